@@ -8,11 +8,14 @@ package cleaner
 // Ghost: ghost_ndelete counts Delete calls issued to the bucket.
 
 //@ immutable Worker.conf, Worker.prefix, Worker.name
+//@ guarded Worker.lastByInstance by Worker.mu
 
 //@ func New
 //@   ensures carries_config: r0 != nil && r0.conf.Enabled == cc.Enabled
 
 //@ func (w *Worker) GetCommitted
+//@   requires lock_free_on_entry: !held(w.mu)
+//@   lockcheck
 //@   trusted
 //@   function
 //@   reads ghost_committedEpoch
@@ -21,6 +24,8 @@ package cleaner
 // caller's map (the syncer keeps updating its own map on every load, before the
 // next snapshot is published). No field of the worker changes (frame).
 //@ func (w *Worker) SetCommitted
+//@   requires lock_free_on_entry: !held(w.mu)
+//@   lockcheck
 //@   modifies ghost_committedEpoch
 //@   ghost nsetcommitted := ghost_nsetcommitted + 1
 
